@@ -34,6 +34,20 @@ def one_d(chk):
            "row i holds the degree+1 non-vanishing basis values at columns span-degree..span, wrapped modulo the number of basis "
            "functions on periodic spaces" if okj else "column indexing of the collocation matrix changed", file=U.INTERP,
            func="SplineInterpolator1D.collocation_matrix")
+    # filling: a periodic function longer than the period occurs twice in one span; the two values add up
+    from ..core import find as _find
+    fills_add = [c for c in ast.walk(cm) if isinstance(c, ast.Call) and src(c.func) == "np.add.at" and len(c.args) == 3
+                 and src(c.args[0]) == "mat" and src(c.args[2]) == "basis" and src(c.args[1]).replace(" ", "") == "(i,js(span))"]
+    fills_set = [n for n in ast.walk(cm) if isinstance(n, ast.Assign) and isinstance(n.targets[0], ast.Subscript)
+                 and src(n.targets[0].value) == "mat" and "js(" in src(n.targets[0].slice)]
+    bad = None
+    if fills_set:
+        bad = (f"`{src(fills_set[0])}` assigns the basis values at the wrapped columns: when a periodic space has as many cells as the "
+               "degree the same column occurs twice in js(span) and the second value overwrites the first instead of adding to it - "
+               "the matrix is not the collocation matrix, interpolants do not reproduce their data")
+    chk.pat("H1-collocation-accumulate", fills_set[0] if fills_set else cm, "np.add.at(mat, (i, js(span)), basis) on both arms",
+            len(fills_add) == 2 and not fills_set, "values falling on the same (wrapped) column are added", bad, file=U.INTERP,
+            func="SplineInterpolator1D.collocation_matrix")
     # dtype dispatch: pair (factorisation, solve) selected by equality with complex
     ifs = [n for n in ast.walk(init) if isinstance(n, ast.If) and "dtype" in src(n.test)]
     ok = False
